@@ -27,6 +27,10 @@ inductive Expr where
   | lit (n : Nat)
   | rlit (n : Nat)                  -- rune literal
   | flit (num : Int) (den : Nat)    -- floating-point literal with the exact value num/den
+  | ilit (num : Int) (den : Nat)    -- imaginary literal `(num/den)i`
+  | re (e : Expr)                   -- real(e)
+  | im (e : Expr)                   -- imag(e)
+  | cx (a b : Expr)                 -- complex(a, b)
   | conv (k : Kind) (e : Expr)
   | un (op : UnOp) (e : Expr)
   | bin (op : Arith) (a b : Expr)
@@ -230,7 +234,7 @@ def parseUn : String → Option UnOp
   | "plus" => some .plus | "neg" => some .neg | "compl" => some .compl
   | _ => none
 
-/-- `L n` | `R n` (rune) | `F num den` (float literal) | `C kind e` | `U op e` | `B op a b` | `SHL a b` | `SHR a b`; fuel bounds the depth.
+/-- `L n` | `R n` (rune) | `F num den` (float literal) | `I num den` (imaginary literal) | `RE e` | `IM e` | `CX a b` | `C kind e` | `U op e` | `B op a b` | `SHL a b` | `SHR a b`; fuel bounds the depth.
 A comparison `Q op a b` is accepted at the root only (`parseWhole`): comparisons of booleans are
 not modelled. -/
 def parseExpr : Nat → List String → Option (Expr × List String)
@@ -242,6 +246,19 @@ def parseExpr : Nat → List String → Option (Expr × List String)
     | "F" :: n :: d :: rest => do
       let d ← d.toNat?
       if d == 0 then none else pure (.flit (← n.toInt?) d, rest)
+    | "I" :: n :: d :: rest => do
+      let d ← d.toNat?
+      if d == 0 then none else pure (.ilit (← n.toInt?) d, rest)
+    | "RE" :: rest => do
+      let (e, rest) ← parseExpr fuel rest
+      pure (.re e, rest)
+    | "IM" :: rest => do
+      let (e, rest) ← parseExpr fuel rest
+      pure (.im e, rest)
+    | "CX" :: rest => do
+      let (a, rest) ← parseExpr fuel rest
+      let (b, rest) ← parseExpr fuel rest
+      pure (.cx a b, rest)
     | "C" :: k :: rest => do
       let (e, rest) ← parseExpr fuel rest
       pure (.conv (← parseKind k) e, rest)
